@@ -145,7 +145,7 @@ pub fn oracle(c: &Case) -> Vec<Violation> {
 
 const HEXU: &[u8; 16] = b"0123456789ABCDEF";
 const HEXL: &[u8; 16] = b"0123456789abcdef";
-const NONHEX: &[u8] = b"GZgz-_ .:/@`";
+const NONHEX: &[u8] = b"GZgz-_ .:/@`+xX#~!$%&*,;<=>?[]^{|}'()\"\\hHoOlL";
 
 fn gen_eisa(s: &mut Choices) -> String {
     let mut v = Vec::new();
@@ -320,8 +320,9 @@ pub fn run(ctx: &Ctx) {
     for len in [0usize, 1, 2, 3, 4, 5, 6, 8, 9, 10] {
         bad.push(Case::BadEisa("PNP0A0312"[..len.min(9)].to_string() + &"0"[..(len > 9) as usize], format!("length={}", len)));
     }
+    let printable_nonhex: Vec<u8> = (0x20u8..0x7f).filter(|c| !(*c as char).is_ascii_hexdigit()).collect();
     for pos in 3..7 {
-        for &c in NONHEX {
+        for &c in &printable_nonhex {
             let mut b = b"PNP0A03".to_vec();
             b[pos] = c;
             bad.push(Case::BadEisa(String::from_utf8(b).unwrap(), format!("non-hex-digit position={}", pos)));
@@ -344,7 +345,8 @@ pub fn run(ctx: &Ctx) {
     }
     for nib in 0..32usize {
         let pos = nib + (nib >= 8) as usize + (nib >= 12) as usize + (nib >= 16) as usize + (nib >= 20) as usize;
-        for &c in b"gGzZ_ " {
+        for &c in &printable_nonhex {
+            // every printable non-hex character (sign characters and radix letters included)
             let mut b = base_uuid.as_bytes().to_vec();
             b[pos] = c;
             bad.push(Case::BadUuid(String::from_utf8(b).unwrap(), format!("non-hex-digit char={}", pos)));
